@@ -134,7 +134,40 @@ func c07run(line string) (string, []string) {
 	case "reencode":
 		es := t.ents()
 		re, rs, total, addr, cont := pmtiles.VerifReencodeEntries(toImpl(es))
-		return fmt.Sprintf("%s ranges %s %d %d %d", entsStr(fromImpl(re)), rangesStr(rs), total, addr, cont), nil
+		var viol []string
+		// each distinct source content is fetched once: ranges disjoint in the source, total = sum of distinct contents
+		type iv struct{ lo, hi uint64 }
+		var ivs []iv
+		for _, x := range rs {
+			ivs = append(ivs, iv{x.Src, x.Src + x.Len})
+		}
+		sort.Slice(ivs, func(i, j int) bool { return ivs[i].lo < ivs[j].lo })
+		for i := 1; i < len(ivs); i++ {
+			if ivs[i].lo < ivs[i-1].hi {
+				viol = append(viol, fmt.Sprintf("re-encoding lists source bytes [%d,%d) in two ranges: they would be requested twice even at overfetch 0", ivs[i].lo, minU(ivs[i].hi, ivs[i-1].hi)))
+				break
+			}
+		}
+		distinct := map[uint64]uint64{}
+		for _, e := range es {
+			distinct[e.Off] = uint64(e.Len)
+		}
+		var want uint64
+		for _, l := range distinct {
+			want += l
+		}
+		overl := false
+		for _, a := range es {
+			for _, b := range es {
+				if a.Off != b.Off && a.Off < b.Off+uint64(b.Len) && b.Off < a.Off+uint64(a.Len) {
+					overl = true
+				}
+			}
+		}
+		if !overl && total != want {
+			viol = append(viol, fmt.Sprintf("tile data of the result is %d bytes but the distinct contents add up to %d", total, want))
+		}
+		return fmt.Sprintf("%s ranges %s %d %d %d", entsStr(fromImpl(re)), rangesStr(rs), total, addr, cont), viol
 	case "merge", "mergechk":
 		bits := uint32(t.u())
 		n := t.n()
@@ -144,6 +177,9 @@ func c07run(line string) (string, []string) {
 		}
 		of := math.Float32frombits(bits)
 		ps, _ := pmtiles.VerifMergeRanges(rs, of)
+		if v := planExecViolations(rs, ps); v != "" {
+			return plansStr(ps), []string{v}
+		}
 		if strings.HasPrefix(line, "mergechk") { // C19: the transfer clauses on the implementation's own plans
 			return "planok true", mergeOracle(rs, ps, of)
 		}
@@ -340,6 +376,59 @@ func rangeLogViolations(lg []string, a *Archive, outH Hdr, of float32, monotone 
 	return viol
 }
 
+// planExecViolations executes the plans against a synthetic source (byte a of the source is a function of a) and
+// compares the destination with what one request per range writes.
+func planExecViolations(rs []pmtiles.VerifRange, ps []pmtiles.VerifPlan) string {
+	var size uint64
+	for _, r := range rs {
+		if r.Dst+r.Len > size {
+			size = r.Dst + r.Len
+		}
+	}
+	if size > 1<<22 {
+		return ""
+	}
+	srcByte := func(a uint64) byte { return byte(a*2654435761>>7) | 1 }
+	want := make([]byte, size)
+	got := make([]byte, size)
+	for _, r := range rs {
+		for i := uint64(0); i < r.Len; i++ {
+			want[r.Dst+i] = srcByte(r.Src + i)
+		}
+	}
+	for _, p := range ps {
+		sp, dp := p.Rng.Src, p.Rng.Dst
+		for _, cd := range p.CDs {
+			for i := uint64(0); i < cd[0] && dp+i < size; i++ {
+				got[dp+i] = srcByte(sp + i)
+			}
+			sp += cd[0] + cd[1]
+			dp += cd[0]
+		}
+	}
+	for i := range want {
+		if want[i] != got[i] {
+			return fmt.Sprintf("executing the merged plans leaves destination byte %d different from the source range it belongs to (never written or wrong)", i)
+		}
+	}
+	return ""
+}
+
+// dropSome removes a random subset of entries: what a zoom range or region does to a de-duplicated directory
+// (the first user of a shared content may be gone, so first uses are no longer ascending in the source).
+func dropSome(r *rng, es []Ent) []Ent {
+	if r.chance(30) {
+		return es
+	}
+	var out []Ent
+	for _, e := range es {
+		if !r.chance(35) {
+			out = append(out, e)
+		}
+	}
+	return out
+}
+
 func genRanges(r *rng, n int, monotone bool, distinctGaps bool) []pmtiles.VerifRange {
 	rs := make([]pmtiles.VerifRange, n)
 	var src, dst uint64
@@ -423,7 +512,7 @@ func c07(r *rng, tier string, o *out) {
 		}
 		c07emit(o, "C07", fmt.Sprintf("relevant %d %s %s", r.intn(4), ivalsStr(iv), entsStr(es)), len(es) > 2, "relevant")
 		tiles, _ := genEntries(r, entOpts{n: r.intn(14), maxGapLog: 5, runs: true, shared: true})
-		c07emit(o, "C07", "reencode "+entsStr(tiles), len(tiles) > 2, "reencode")
+		c07emit(o, "C07", "reencode "+entsStr(dropSome(r, tiles)), len(tiles) > 2, "reencode")
 		rs := genRanges(r, 1+r.intn(9), r.chance(70), true)
 		of := overfetches[r.intn(len(overfetches))]
 		c07emit(o, "C07", fmt.Sprintf("merge %d %s", math.Float32bits(of), rangesStr(rs)), len(rs) > 2, "merge")
@@ -487,6 +576,10 @@ func c19(r *rng, tier string, o *out) {
 		}
 		ps, _ := pmtiles.VerifMergeRanges(rs, of)
 		c07emit(o, "C19", fmt.Sprintf("mergechk %d %s PLANS %s", math.Float32bits(of), rangesStr(rs), plansStr(ps)), len(rs) > 2, "mergechk")
+		if c%2 == 0 { // contents referenced backwards, then repeated: what re-encoding must still fetch once
+			tiles, _ := genEntries(r, entOpts{n: 2 + r.intn(12), maxGapLog: 4, runs: true, shared: true})
+			c07emit(o, "C19", "reencode "+entsStr(dropSome(r, tiles)), len(tiles) > 2, "reencode")
+		}
 		if c%3 == 0 {
 			rs2 := genRanges(r, 1+r.intn(10), true, true)
 			c07emit(o, "C19", fmt.Sprintf("merge %d %s", math.Float32bits(of), rangesStr(rs2)), len(rs2) > 2, "merge")
